@@ -15,6 +15,7 @@ from pathlib import Path
 VERIF = Path(__file__).resolve().parent.parent
 SEEDED = VERIF / "seeded"
 PY = "/venv/bin/python"
+REPO = os.environ.get("REDUINO_REPO", "/repo")   # a scratch worktree when several lanes run in parallel (each lane = its own copy of /verif + worktree)
 
 
 def sh(cmd, cwd=None, env=None, timeout=1800):
@@ -68,7 +69,7 @@ def confirm(pid, variant, srcdir):
 def run(selector=None, tier="quick"):
     results_path = SEEDED / "RESULTS.json"
     results = json.loads(results_path.read_text()) if results_path.exists() else {}
-    assert sh(["git", "-C", "/repo", "status", "--porcelain", "--untracked-files=no"])[1].strip() == "", "/repo not clean"
+    assert sh(["git", "-C", REPO, "status", "--porcelain", "--untracked-files=no"])[1].strip() == "", REPO + " not clean"
     for pdir in sorted(SEEDED.iterdir()):
         if not pdir.is_dir():
             continue
@@ -76,7 +77,7 @@ def run(selector=None, tier="quick"):
             name = f"{pdir.name}/{vdir.name}"
             if selector and not name.startswith(selector):
                 continue
-            rc, out = sh(["git", "-C", "/repo", "apply", str(vdir / "patch.diff")])
+            rc, out = sh(["git", "-C", REPO, "apply", str(vdir / "patch.diff")])
             if rc != 0:
                 results[name] = {"applied": False, "err": out[-300:]}
                 print(name, "PATCH DOES NOT APPLY")
@@ -92,7 +93,7 @@ def run(selector=None, tier="quick"):
                 results[name] = {"applied": True, "tier": tier, "checks": r, "caught": any(v["rc"] == 1 for v in r.values())}
                 print(name, json.dumps(results[name]))
             finally:
-                sh(["git", "-C", "/repo", "checkout", "--", "."])
+                sh(["git", "-C", REPO, "checkout", "--", "."])
     results_path.write_text(json.dumps(results, indent=1, sort_keys=True))
 
 
